@@ -161,8 +161,156 @@ def normalise_dispatch(tree: ast.Module) -> list[str]:
     wl.visit(tree)
     bc = BranchCallableNormaliser()
     bc.visit(tree)
+    fl = FilterLoopNormaliser(tree)
+    fl.visit(tree)
+    pf = PartialFactoryNormaliser()
+    pf.visit(tree)
     ast.fix_missing_locations(tree)
-    return t.log + p.log + a.log + f.log + w.log + wl.log + bc.log
+    return t.log + p.log + a.log + f.log + w.log + wl.log + bc.log + fl.log \
+        + pf.log
+
+
+class PartialFactoryNormaliser(ast.NodeTransformer):
+    """`functools.partial(F, a, k=v)` handed (directly, or through a local
+    bound once and used once) to `...from_generator(..)`, which calls it
+    without arguments, is `lambda: F(a, k=v)`."""
+
+    def __init__(self):
+        self.log: list[str] = []
+
+    @staticmethod
+    def _is_partial(e) -> bool:
+        return isinstance(e, ast.Call) and ast.unparse(e.func) in (
+            "functools.partial", "partial") and bool(e.args)
+
+    @staticmethod
+    def _lam(p: ast.Call) -> ast.Lambda:
+        from sa.model import clone
+        return ast.Lambda(
+            args=ast.arguments(posonlyargs=[], args=[], kwonlyargs=[],
+                               kw_defaults=[], defaults=[]),
+            body=ast.Call(func=clone(p.args[0]),
+                          args=[clone(a) for a in p.args[1:]],
+                          keywords=[clone(k) for k in p.keywords]))
+
+    def visit_FunctionDef(self, node):
+        self.generic_visit(node)
+        calls = [c for c in ast.walk(node) if isinstance(c, ast.Call) and
+                 isinstance(c.func, ast.Attribute) and
+                 c.func.attr == "from_generator"]
+        for c in calls:
+            slots = [("args", i) for i in range(len(c.args))] + [
+                ("kw", i) for i in range(len(c.keywords))]
+            for kind_, i in slots:
+                a = c.args[i] if kind_ == "args" else c.keywords[i].value
+                new = None
+                if self._is_partial(a):
+                    new = self._lam(a)
+                elif isinstance(a, ast.Name):
+                    stores = [s for s in ast.walk(node) if isinstance(
+                        s, (ast.Assign, ast.AnnAssign)) and getattr(
+                            s, "value", None) is not None and any(
+                                isinstance(t, ast.Name) and t.id == a.id
+                                for t in (s.targets if isinstance(
+                                    s, ast.Assign) else [s.target]))]
+                    loads = [x for x in ast.walk(node) if isinstance(
+                        x, ast.Name) and x.id == a.id and isinstance(
+                            x.ctx, ast.Load)]
+                    if len(stores) == 1 and len(loads) == 1 and \
+                            self._is_partial(stores[0].value):
+                        new = self._lam(stores[0].value)
+                        self._drop(node, stores[0])
+                if new is not None:
+                    ast.copy_location(new, a)
+                    if kind_ == "args":
+                        c.args[i] = new
+                    else:
+                        c.keywords[i].value = new
+                    self.log.append(f"L{c.lineno}: functools.partial factory "
+                                    "read as a lambda")
+        ast.fix_missing_locations(node)
+        return node
+
+    visit_AsyncFunctionDef = visit_FunctionDef
+
+    @staticmethod
+    def _drop(root, stmt) -> None:
+        for owner in ast.walk(root):
+            for fld in ("body", "orelse", "finalbody"):
+                blk = getattr(owner, fld, None)
+                if isinstance(blk, list) and stmt in blk:
+                    blk.remove(stmt)
+                    if not blk:
+                        blk.append(ast.Pass())
+                    return
+
+
+class FilterLoopNormaliser(ast.NodeTransformer):
+    """`for x in itertools.filterfalse(P, S): BODY` is
+    `for x in S: if P(x): continue; BODY` (and `filter(P, S)` with the test
+    negated), where P is `operator.methodcaller("m")` (then P(x) is `x.m()`),
+    a lambda, or a module-level name bound once to one of these."""
+
+    def __init__(self, tree: ast.Module):
+        self.log: list[str] = []
+        self.globals: dict[str, ast.AST] = {}
+        for s in tree.body:
+            if isinstance(s, ast.Assign) and len(s.targets) == 1 and \
+                    isinstance(s.targets[0], ast.Name):
+                self.globals[s.targets[0].id] = s.value
+            elif isinstance(s, ast.AnnAssign) and isinstance(
+                    s.target, ast.Name) and s.value is not None:
+                self.globals[s.target.id] = s.value
+
+    def _apply(self, pred: ast.AST, var: str) -> ast.AST | None:
+        from sa.model import clone
+        if isinstance(pred, ast.Name) and pred.id in self.globals:
+            pred = self.globals[pred.id]
+        if isinstance(pred, ast.Call) and ast.unparse(pred.func) in (
+                "operator.methodcaller", "methodcaller") and len(
+                    pred.args) == 1 and isinstance(
+                        pred.args[0], ast.Constant) and isinstance(
+                            pred.args[0].value, str) and not pred.keywords:
+            return ast.Call(func=ast.Attribute(
+                value=ast.Name(id=var, ctx=ast.Load()),
+                attr=pred.args[0].value, ctx=ast.Load()), args=[], keywords=[])
+        if isinstance(pred, ast.Lambda) and len(pred.args.args) == 1 and \
+                not pred.args.defaults:
+            p0 = pred.args.args[0].arg
+
+            class _S(ast.NodeTransformer):
+
+                def visit_Name(self, n):
+                    if n.id == p0:
+                        return ast.copy_location(ast.Name(id=var, ctx=n.ctx), n)
+                    return n
+
+            return _S().visit(clone(pred.body))
+        return None
+
+    def visit_For(self, node: ast.For):
+        self.generic_visit(node)
+        it = node.iter
+        if not (isinstance(it, ast.Call) and isinstance(
+                node.target, ast.Name) and len(it.args) == 2 and
+                not it.keywords):
+            return node
+        nm = ast.unparse(it.func)
+        if nm not in ("itertools.filterfalse", "filterfalse", "filter"):
+            return node
+        test = self._apply(it.args[0], node.target.id)
+        if test is None:
+            return node
+        skip_when = test if nm != "filter" else ast.UnaryOp(op=ast.Not(),
+                                                            operand=test)
+        guard = ast.If(test=skip_when, body=[ast.Continue()], orelse=[])
+        ast.copy_location(guard, node)
+        node.iter = it.args[1]
+        node.body = [guard] + node.body
+        ast.fix_missing_locations(node)
+        self.log.append(f"L{node.lineno}: loop over {nm}(..) read as a loop "
+                        "with a guard")
+        return node
 
 
 class BranchCallableNormaliser(ast.NodeTransformer):
@@ -863,12 +1011,29 @@ class AliasInliner(ast.NodeTransformer):
                     x is st for x in ast.walk(lp))]
             in_loop_lines = {x.lineno for lp in loops_ for x in ast.walk(lp)
                              if hasattr(x, "lineno")}
-            live_rebinds = [ln for ln in rebinds
-                            if ln >= st.lineno or ln in in_loop_lines]
-            if live_rebinds and uses and max(
-                    u.lineno for u in uses) >= min(live_rebinds):
+            # (source order by a pre-order numbering: inlined statements
+            # share line numbers)
+            order = {}
+
+            def _number(nd, counter=[0]):
+                order[id(nd)] = counter[0]
+                counter[0] += 1
+                for ch in ast.iter_child_nodes(nd):
+                    _number(ch)
+
+            _number(node, [0])
+            rebind_nodes = [x for x in ast.walk(node) if isinstance(
+                x, (ast.Assign, ast.AugAssign, ast.AnnAssign, ast.Delete)) and
+                any(ast.unparse(tg) == chain for tg in (
+                    x.targets if isinstance(x, (ast.Assign, ast.Delete))
+                    else [x.target])) and x is not st]
+            in_loop_ids = {id(x) for lp in loops_ for x in ast.walk(lp)}
+            live = [x for x in rebind_nodes
+                    if order[id(x)] > order[id(st)] or id(x) in in_loop_ids]
+            if live and uses and max(order[id(u)] for u in uses) >= min(
+                    order[id(x)] for x in live):
                 continue
-            if live_rebinds and loops_:
+            if live and loops_:
                 continue
             aliases[t.id] = (v, st)
         if not aliases:
